@@ -640,7 +640,7 @@ func EVAL(ctx context.Context, ast MalType, env EnvType) (res MalType, e error) 
 				if !ok {
 					return nil, lisperror.NewLispError(fmt.Errorf("attempt to call non-function (was of type %T)", f), el)
 				}
-				result, err := fn.Fn(ctx, el.(List).Val[1:])
+				result, err := applyFunc(ctx, fn, el.(List).Val[1:])
 				if err != nil {
 					return nil, lisperror.NewLispError(err, ast)
 				}
@@ -660,10 +660,21 @@ func first(list MalType) string {
 	return ""
 }
 
+// applyFunc calls a host function; a panic inside it becomes the returned error
+func applyFunc(ctx context.Context, fn Func, args []MalType) (res MalType, err error) {
+	defer malRecover(&err)
+	return fn.Fn(ctx, args)
+}
+
 func malRecover(err *error) {
 	rerr := recover()
 	if rerr != nil {
-		*err = rerr.(error)
+		switch rerr := rerr.(type) {
+		case error:
+			*err = rerr
+		default:
+			*err = lisperror.NewLispError(rerr, nil)
+		}
 	}
 }
 
